@@ -31,12 +31,14 @@ PROBE_FLOORS = {"history_replay_with_latency": 100, "latent_last_before_first_st
                 "single_event_day": 20, "empty_timestep_skipped": 19, "episode_after_observer_crash": 60,
                 "custom_events_loaded_from_table": 200, "episode_on_a_second_environment_of_the_transmitter": 100,
                 "events_added_before_second_environment": 50, "second_environment_with_another_latency": 35, "quotes_loaded_with_add_prices": 300,
-                "price_table_with_repeated_timestamps": 60, "environment_construction_refused": 50, "observers_with_inherited_callbacks": 170}
+                "price_table_with_repeated_timestamps": 60, "environment_construction_refused": 50, "observers_with_inherited_callbacks": 170,
+                "date_boundary_with_the_same_day_of_month": 1500}
 
 PROFILE = {
     "n_min": 2, "n_max": 10, "n_long": 30, "p_long": 0.08, "c_min": 1, "c_max": 3, "p_bar": 0.8, "extras_max": 12,
     "p_sparse_grid": 0.2, "p_folds": 0.5, "p_markov": 0.25, "p_warmup": 0.35, "delays": [0, 0, 1], "p_custom_frame": 0.2, "p_prices_table": 0.2,
     "contract_kinds": ["ETF", "ETF", "spot", "margined"],
+    "grid_styles": ["regular", "irregular", "irregular", "daily", "calendar"],
 }
 
 
@@ -307,6 +309,28 @@ def check_episode(env_spec, d, ep, sim, violate, probe):
                         return
                 else:
                     last_market_t = t
+    # new-date notifications: exactly one in front of the first event of every new calendar date (consecutive
+    # events handed to the environment whose dates differ), none between two events of the same date
+    prev = None
+    pending = 0
+    for r in recs:
+        if not (s0 < r["seq"] < end_seq) or r["kind"] != "cb" or r["obs"] != "state":
+            continue
+        if r["cls"] == "EventNewDate":
+            pending += 1
+            continue
+        if prev is not None:
+            crossed = prev["time"].date() != r["time"].date()
+            if crossed:
+                probe("date_boundary_crossed")
+                if prev["time"].day == r["time"].day:
+                    probe("date_boundary_with_the_same_day_of_month")
+            if pending != (1 if crossed else 0):
+                violate("new_date_notifications", "{} new-date notification(s) between the events stamped {} and {} ({} date)".format(
+                    pending, prev["time"], r["time"], "another" if crossed else "the same"), kind="missing" if pending == 0 else "spurious")
+                return
+        prev = r
+        pending = 0
     # books after reset == last quote per contract in the replayed history
     hist = d.history(steps[0])
     want_book = {}
@@ -514,3 +538,8 @@ def simplify(scenario):
 
 
 generate = gen_epi.with_backtest_driver(generate, 0.2)
+_generate_bt = generate
+
+
+def generate(rng, i):
+    return gen_epi.add_timesteps_later(_generate_bt(rng, i), 0.1)
